@@ -468,6 +468,18 @@ def gen_case(rnd, kind=None, small=False):
     return case
 
 
+def gen_coarse_dst_case(rnd):
+    """a sub-daily grid in a daylight-saving zone over whole CALENDAR days around a switch, coarsened to days over the whole grid:
+    the coarse steps are the calendar days (23, 24 or 25 hours long), every fine step in exactly one of them"""
+    tz = rnd.choice(['CET', 'Europe/Berlin', 'US/Eastern'])
+    day = pd.Timestamp(rnd.choice(DST_DATES[tz])) - pd.Timedelta(days=rnd.choice([0, 1]))
+    nd = rnd.randint(2, 4)
+    end = day + pd.DateOffset(days=nd)
+    g = {'start': dspec(day, 'datetime'), 'end': dspec(pd.Timestamp(end), 'datetime'), 'freq': rnd.choice(['h', 'h', '2h', '30min']),
+         'unit': rnd.choice(['h', 'h', 'd']), 'tz': tz, 'malformed': None, 'wacc': rnd.choice([None, 0.05])}
+    return {'kind': 'coarse', 'grid': g, 'cfreq': 'd', 'cwindow': {'s': None, 'e': None, 'placement': 'none_both'}, 'focus': 'coarse_dst'}
+
+
 def _wspec(rnd, ts, tz):
     if tz is None:
         return dspec(ts, rnd.choice(['datetime', 'timestamp']))
@@ -600,6 +612,16 @@ def run_impl(case):
             # another grid of the same length and then to this one: gridded data pass through unchanged both times
             if p['dlen'] == 0 and cur.T >= 1 and isinstance(res['prices'], dict) and 'ok' in res['prices'] and not p.get('nan'):
                 frame = pd.DataFrame({k_: np.array(v, dtype=float) for k_, v in arrs.items()})
+                # numeric row labels of any kind mean "i-th row = i-th grid point": 0..T-1, 1..T, rows left after filtering a
+                # longer table, float labels
+                iv = rr.choice(['range', 'range', 'one_based', 'filtered', 'float'])
+                if iv == 'one_based':
+                    frame.index = pd.Index(np.arange(1, len(frame) + 1))
+                elif iv == 'filtered':
+                    frame.index = pd.Index(np.arange(len(frame)) * 3 + 7)
+                elif iv == 'float':
+                    frame.index = pd.Index(np.arange(len(frame), dtype=float))
+                res['prices_frame_index'] = iv
                 g = case['grid']
                 shift = pd.Timedelta(days=7 * 52)
                 try:
@@ -1174,6 +1196,8 @@ def cases(seed, n, small=False):
     rnd = random.Random(seed * 104729 + 19)
     for i in range(n):
         yield 'grid%d' % i, gen_case(random.Random(rnd.getrandbits(48)), small=small)
+    for i in range(max(10, n // 40)):
+        yield 'coarsedst%d' % i, gen_coarse_dst_case(random.Random(rnd.getrandbits(48)))
 
 
 def exhaustive_windows(tmax=48):
